@@ -34,10 +34,13 @@ def _build():
     rs2 = [subtotal("r12", [1, 2], anchor="top", sid=1), subtotal("r23", [2, 3], anchor="bottom", sid=2)]
     cs = [subtotal("c12", [1, 2], anchor="bottom", sid=1)]
     cs3 = [subtotal("c13", [1, 3], anchor=1, sid=1)]
+    # differences: the share of a difference is its (public) sum over the same base-row total
+    rd = [subtotal("r1_2", [1], [2], anchor="top", sid=1), subtotal("r23_1", [2, 3], [1], anchor=2, sid=2),
+          subtotal("r12", [1, 2], anchor="bottom", sid=3)]
     num = {"measures": ["sum"], "valid_counts": True}
     NUMS = (None, 1, 2, -1)
     reg.add(S.schema2("sum_cat3_x_cat2", A3, B2, numeric=dict(num)), (1,), NUMS,
-            configs=[{}, {"rows": rs}, {"cols": cs}, {"rows": rs2, "cols": cs}], quick=2, thorough=3)
+            configs=[{}, {"rows": rs}, {"cols": cs}, {"rows": rs2, "cols": cs}, {"rows": rd, "cols": cs}], quick=2, thorough=3)
     reg.add(S.schema2("sum_cat3_x_cat3", A3, B3, numeric=dict(num)), (1,), (None, 1, 2),
             configs=[{"rows": rs2, "cols": cs}, {"rows": rs, "cols": cs3}], quick=2, thorough=3)
     reg.add(S.schema2("sumna_cat3_x_cat2", A3, B2, numeric={"measures": ["sum"], "valid_counts": True, "sum_empty": "na"}),
@@ -52,9 +55,9 @@ def _build():
     reg.add(Schema("sum_numarr_x_cat3", [B3], [("cat", 0)], numeric={"measures": ["sum"], "numarr": NA}),
             (1,), NAV, configs=[{}, {"cols": cs3}], quick=3, thorough=4)
     reg.add(Schema("sum_cat3_1d", [A3], [("cat", 0)], numeric=dict(num)), (1,), NUMS,
-            configs=[{}, {"rows": rs2}], quick=3, thorough=5)
+            configs=[{}, {"rows": rs2}, {"rows": rd}], quick=3, thorough=5)
     reg.add(Schema("sumna_cat3_1d", [A3], [("cat", 0)], numeric={"measures": ["sum"], "valid_counts": True, "sum_empty": "na"}),
-            (1,), NUMS, configs=[{}, {"rows": rs2}], quick=3, thorough=4)
+            (1,), NUMS, configs=[{}, {"rows": rs2}, {"rows": rd}], quick=3, thorough=4)
     reg.add(Schema("sum_numarr_1d", [], [], numeric={"measures": ["sum"], "numarr": NA}),
             (1,), NAV, configs=[{}], quick=4, thorough=6)
     return reg
@@ -113,12 +116,14 @@ def check(space, state):
                 base.append(_cell_sum(mem, k if numarr else None, empty))
             tot = _nansum(base)
             exp = []
-            for i in order:
+            pub = np.asarray(part.sums, dtype=float).tolist()
+            for pos, i in enumerate(order):
                 if i >= 0:
                     v = base[i]
                 else:
                     _, add, _sub = specs[len(specs) + i]
-                    v = sum(base[a] for a in add)
+                    # a difference: whatever the partition reports as its sum, over the same total
+                    v = pub[pos] if _sub else sum(base[a] for a in add)
                 exp.append(SKIP if tot == 0 else (v / tot if v == v else NANF))
             cmp("strand.share_sum", "", part.share_sum, exp)
             if tot != 0:
@@ -143,8 +148,14 @@ def check(space, state):
         coltot = {J: _nansum([val(i, J) for i in range(nr)]) for J in set(co)}
         total = _nansum([Sb[i][j] for i in range(nr) for j in range(nc)])
 
+        pubs = np.asarray(part.sums, dtype=float)
+        diff_r = {nr + k for k, (_, _a, sb) in enumerate(o.row_specs) if sb}
+        diff_c = {nc + k for k, (_, _a, sb) in enumerate(o.col_specs) if sb}
+
         def share(I, J, den):
             v = val(I, J)
+            if I in diff_r or J in diff_c:
+                v = float(pubs[ro.index(I), co.index(J)])      # a difference: its public sum
             if den == 0:
                 return SKIP
             return v / den if v == v else NANF
